@@ -58,7 +58,8 @@ def run(ctx):
                                    (m, c.get("kind"), json.dumps((c.get("in") or {}).get("trace", c.get("in")))[:900]))
     st = state["stats"]
     if cases:
-        for k in ("failed_calls", "reapply_events", "traces_with_coalescing", "burst_checked", "ktraces_with_coalescing"):
+        for k in ("failed_calls", "reapply_events", "traces_with_coalescing", "burst_checked", "ktraces_with_coalescing",
+                  "real_body_scenarios", "real_reload_signal_failures"):
             if st.get(k, 0) == 0:
                 raise Exception("generator degenerate: counter %s is zero: %r" % (k, st))
 
